@@ -255,7 +255,7 @@ class RefInst:
         """Effects of building the machine over the model: returns exception desc or None."""
         self.decide_engine()
         if self.state is None:
-            self.queue.append({"event": "__initial__", "args": [], "kwargs": {}})
+            self.queue.append({"event": "__initial__", "args": [], "kwargs": {}, "initial": True})
         if self.engine == "sync":
             return self._drain(execs)
         return None
@@ -305,7 +305,8 @@ class RefInst:
         if isinstance(self.state, dict):
             # the model holds a value that maps to no state: every event fails on reading it
             raise RefRaise({"cls": "InvalidStateValue", "value": self.state.get("$invalid")})
-        if ev == "__initial__":
+        if er.get("initial"):
+            ex["initial"] = True
             dst = self.start_state()
             ex["dst"] = dst
             ex["trans"] = -1
